@@ -65,7 +65,10 @@ def do_read(a, kind):
     elif kind == "unique":
         np.unique(a, axis=-1, return_counts=True)
     elif kind == "cumsum":
-        np.cumsum(a, axis=-1)
+        if np.issubdtype(a.dtype, np.integer):
+            np.cumsum(a, axis=-1)
+        else:
+            np.add.accumulate(a, axis=-1)
     elif kind == "sort":
         a.sort(axis=-1)
     elif kind == "diff":
@@ -153,7 +156,7 @@ def step(objs, st, o):
             return ["obs", ["raised", type(e).__name__]]
     if k == "fill":
         try:
-            objs[st[1] - 1].fill(st[2])
+            objs[st[1] - 1].fill(dec_val(st[2], dt_of(objs[st[1] - 1].dtype)))
             return ["none"]
         except Exception as e:
             return ["obs", ["raised", type(e).__name__]]
@@ -183,6 +186,9 @@ def step(objs, st, o):
                 r = np.unique(a, axis=-1)
             elif name == "astype":
                 r = a.astype(a.dtype)
+            elif name in ("sum", "max", "min", "mean", "argmax", "argmin"):
+                r = getattr(a, name)(axis=-1)
+                return ["obs", ER.proj_any(r, False, "flat")]
             else:
                 raise ValueError(name)
             if isinstance(r, RaggedArray):
